@@ -360,9 +360,11 @@ def af_rules(run, repo, tier):
         r3.ok('configuration')
 
     # ---- metadata: two runs, all builder calls, both byte orders ---------------------------------------------------
-    for bo, n_runs, indirect in (('little', 1, False), ('big', 3, False), ('little', 2, True), ('little', 1, 'transposed')):
-        wr = build(repo, ('P', 'I', 'S', 'D', 'T'), bo, 4, 3, n_runs, 'memory', 'the title', indirect=bool(indirect), transposed=indirect == 'transposed')
-        cfg = f'byteorder={bo} runs={n_runs} mode={("indirect, en supplied as (energy_transfer, detector)" if indirect == "transposed" else "indirect") if indirect else "direct"}'
+    for bo, n_runs, indirect in (('little', 1, False), ('big', 3, False), ('little', 2, True), ('little', 1, 'transposed'), ('big', 2, 'shared'), ('little', 2, 'shared')):
+        wr = build(repo, ('P', 'I', 'S', 'D', 'T'), bo, 4, 3, n_runs, 'memory', 'the title', indirect=indirect is True or indirect == 'transposed',
+                   transposed=indirect == 'transposed', shared_runs=indirect == 'shared')
+        cfg = f'byteorder={bo} runs={n_runs} mode=' + {False: 'direct', True: 'indirect', 'transposed': 'indirect, en supplied as (energy_transfer, detector)',
+                                                       'shared': 'direct, runs made from one template (shared arrays)'}[indirect]
         if wr.outcome[0] != 'return':
             r5.fail(f'builder [{cfg}]', loc(repo.func(BUILD, 'SqwBuilder.create')), {'outcome': wr.outcome}, key='builder')
             continue
